@@ -175,9 +175,9 @@ PROPS = {
     ),
     'C05': dict(
         title='discovery is sound', proj='proj_full', oracle='c05',
-        quick=[S_('probes', nc=2, items=('partial_mix', 'rebinding_forms')), S_('bind'), S_('visitor_adv', nc=4), S_('visitor_corpus', star_only=True), S_('programs', count=3000),
+        quick=[S_('probes', nc=2, items=('partial_mix', 'rebinding_forms', 'nonlocal_intermediate')), S_('bind'), S_('visitor_adv', nc=4), S_('visitor_corpus', star_only=True), S_('programs', count=3000),
                S_('progexec', count=3000, ops=('progexec',)), S_('probes_c05', nc=1)],
-        thorough=[S_('probes', nc=2, items=('partial_mix', 'rebinding_forms')), S_('bind'), S_('visitor_adv', nc=4), S_('visitor_corpus'), S_('programs', count=60000),
+        thorough=[S_('probes', nc=2, items=('partial_mix', 'rebinding_forms', 'nonlocal_intermediate')), S_('bind'), S_('visitor_adv', nc=4), S_('visitor_corpus'), S_('programs', count=60000),
                   S_('progexec', count=60000, ops=('progexec',)), S_('probes_c05', nc=1)],
         runtime_part='name resolution through real globals / closures / attributes / bound arguments, decorator plumbing, execution of the generated wrappers',
         level_text='The AST walker is modelled on a generic tree covering every Python node type; that it is total and that, on every program of an inductively defined forwarding grammar '
